@@ -105,8 +105,11 @@ def dataset_case(args) -> dict:
            "distinct": 0}
     try:
         from sedpack.io import Dataset
-        _, ref = dsfamily.build(root, name)
-        fmt = (dsfamily.RECIPES.get(name) or dsfamily.EXTRA[name])[0]
+        # "<recipe>/nohash": no checksum algorithm configured at all
+        recipe, _, variant = name.partition("/")
+        _, ref = dsfamily.build(root, recipe, hashes=() if variant == "nohash"
+                                else ("sha256",))
+        fmt = (dsfamily.RECIPES.get(recipe) or dsfamily.EXTRA[recipe])[0]
         dataset = Dataset(root)
         seen = set()
         for split, want in ref.items():
@@ -188,7 +191,8 @@ def dataset_case(args) -> dict:
 
 def run_datasets(ctx, ex) -> None:
     # many64: more shards than 3 x the default parallelism (CPU count) + 2
-    names = list(dsfamily.RECIPES) + ["many64"]
+    names = list(dsfamily.RECIPES) + ["many64", "flat/nohash",
+                                      "nested/nohash", "bushy/nohash"]
     tot = 0
     distinct = 0
     for r in ex.map(dataset_case, [(n, ctx.tier) for n in names]):
